@@ -20,7 +20,8 @@ from fractions import Fraction as Fr
 from . import common  # noqa: F401
 from .c17 import ONE_MS, DAY_MS, T_MIN, T_MAX, ms_of, us_of, dt_of
 
-SCOPE = ("TimeScale().domain([d0, d1]).range([r0, r1]): every ordered pair of distinct instants from 14 (quick) / 22 (thorough) special naive "
+SCOPE = ("the scale with domain [d0, d1] and range [r0, r1] reached through 5 call histories in rotation (fresh; a scale used on another domain - mapped "
+         "and inverted - then re-configured by domain()+range(), range()+domain(), domain() only, or a copy() of it): every ordered pair of distinct instants from 14 (quick) / 22 (thorough) special naive "
          "instants 1900..2200 (epoch +-1 ms, leap days, year ends, 2038, DST-looking wall times, both ends of the period) x 12 ranges (both "
          "orientations, offset, negative, sub-unit, [1000,1001], [0,1e6]) x ~20 query instants (ends, +-1 ms around them, interior fractions, "
          "outside by 1 ms / 1 span / 10 spans, period ends) + equal-duration pairs; then seeded random domains (uniform and log-uniform spans "
@@ -42,9 +43,33 @@ POINTS = [
 ]
 
 
-def make_scale(d0, d1, r0, r1):
+HISTORIES = ["fresh", "used-then-domain-then-range", "used-then-range-then-domain", "used-then-domain-only", "copy-of-used"]
+
+
+def make_scale(d0, d1, r0, r1, hist=0):
+    """the scale under test, reached through a call history: the statement is about the scale's CURRENT domain and range,
+    whatever it mapped or inverted before (hist > 0: a scale that has been used on another domain first)"""
     from labella.scale import TimeScale
-    return TimeScale().domain([d0, d1]).range([r0, r1])
+    if not hist:
+        return TimeScale().domain([d0, d1]).range([r0, r1])
+    e0, e1 = datetime(1987, 3, 14, 6), datetime(1991, 11, 2, 18, 30)
+    q0, q1 = -17.0, 923.0
+    if hist == 3:
+        s = TimeScale().range([r0, r1]).domain([e0, e1])
+        s(e0), s.invert(r0), s.invert((r0 + r1) / 2)
+        return s.domain([d0, d1])
+    s = TimeScale().domain([e0, e1]).range([q0, q1])
+    s(e0), s(e1), s.invert(q0), s.invert(100.0)
+    if hist == 4:
+        s = s.copy()
+        s.invert(q1)
+    if hist == 2:
+        s.range([r0, r1])
+        s.invert(r0)
+        return s.domain([d0, d1])
+    s.domain([d0, d1])
+    s.invert(q0)
+    return s.range([r0, r1])
 
 
 def make_linear(x0, x1, r0, r1):
@@ -52,16 +77,17 @@ def make_linear(x0, x1, r0, r1):
     return LinearScale().domain([x0, x1]).range([r0, r1])
 
 
-def check_scale(run, d0, d1, r0, r1, queries, durs=()):
+def check_scale(run, d0, d1, r0, r1, queries, durs=(), hist=0):
     """queries: instants; durs: triples (a, b, delta_ms) comparing the images of [a, a+delta] and [b, b+delta]"""
-    inp = {"domain": [d0, d1], "range": [r0, r1], "queries": list(queries), "durs": [list(x) for x in durs]}
+    inp = {"domain": [d0, d1], "range": [r0, r1], "queries": list(queries), "durs": [list(x) for x in durs],
+           "hist": hist, "history": HISTORIES[hist]}
     m0, m1 = ms_of(d0), ms_of(d1)
     S = m1 - m0
     R = max(abs(r0), abs(r1))
     fr0, fr1 = Fr(r0), Fr(r1)
     w = fr1 - fr0
     sgn = (1 if w > 0 else -1) * (1 if S > 0 else -1)
-    ok, s = run.guard(lambda: make_scale(d0, d1, r0, r1), "C15.exception", inp)
+    ok, s = run.guard(lambda: make_scale(d0, d1, r0, r1, hist), "C15.exception", inp)
     if not ok:
         return
     ok, lin = run.guard(lambda: make_linear(m0, m1, r0, r1), "C15.exception", inp)
@@ -175,7 +201,7 @@ def std_queries(d0, d1, rng=None):
 def one(run, d0, d1, r0, r1, rng=None):
     run.case((ms_of(d0), ms_of(d1), r0, r1))
     qs, durs = std_queries(d0, d1, rng)
-    check_scale(run, d0, d1, r0, r1, qs, durs)
+    check_scale(run, d0, d1, r0, r1, qs, durs, hist=run.evaluations % len(HISTORIES))
 
 
 def random_range(rng):
@@ -249,7 +275,7 @@ def replay(run, inp):
         if inp.get(k) is not None and inp[k] not in qs:
             qs.append(inp[k])
     durs = [tuple(x) for x in (inp.get("durs") or [])]
-    check_scale(run, d0, d1, r0, r1, qs, durs)
+    check_scale(run, d0, d1, r0, r1, qs, durs, hist=int(inp.get("hist") or 0))
 
 
 if __name__ == "__main__":
